@@ -214,6 +214,13 @@ func FindProtocolVersion(data []byte) string {
 // result column that is not binary (a scalar-returning method) — so the
 // caller can forward the body unchanged.
 func ReadUnaryResult(data []byte) (schema *arrow.Schema, result []byte, ok bool) {
+	// The IPC reader does not validate buffer contents: a corrupted offsets
+	// buffer makes Binary.Value panic. Lenient means not-ok, never a panic.
+	defer func() {
+		if r := recover(); r != nil {
+			schema, result, ok = nil, nil, false
+		}
+	}()
 	reader, err := ipc.NewReader(bytes.NewReader(data))
 	if err != nil {
 		return nil, nil, false
